@@ -119,6 +119,27 @@ Definition tick : M unit :=
            | _ => (inl tt, mkst (outs s) (nout s) (cap s) (nextid s) (inputs s) (cells s) (repsens s) (N.pred (steps s)))
            end.
 
+(* [with_cell scoped init body after]: run [body c] with a fresh cell c holding [init]; on every exit
+   (normal or exceptional) the cell is removed, and when [scoped] the id counter is reset to its value
+   at entry: the ids allocated inside are dead then (used outside path tracking only, where no id can
+   escape in a value).  [after] receives the final contents of the cell. *)
+Definition with_cell (scoped : bool) (init : tv) (body : N -> M unit) (after : tv -> M unit) : M unit :=
+  fun s =>
+    let c := nextid s in
+    let restore (s1 : sst) : sst :=
+      mkst (outs s1) (nout s1) (cap s1) (if scoped then nextid s else nextid s1) (inputs s1)
+           (cell_remove (cells s1) c) (repsens s1) (steps s1) in
+    match body c (mkst (outs s) (nout s) (cap s) (nextid s + 1)%N (inputs s) ((c, init) :: cells s) (repsens s) (steps s)) with
+    | (inl _, s1) =>
+        match cell_lookup (cells s1) c with
+        | Some v => after v (restore s1)
+        | None => (inr (XSkip (codes "cell")), s1)
+        end
+    | (inr x, s1) => (inr x, restore s1)
+    end.
+
+Definition scoped_ids (ps : option pstate) : bool := match ps with None => true | Some _ => false end.
+
 Definition next_input : M (option jv) :=
   fun s => match inputs s with
            | [] => (inl None, s)
@@ -872,18 +893,17 @@ Definition step_eval_t (E : evals) (rho : env) (t : term) (v : tv) (ps : pst) (k
           end
       | TArray None => k (plain (VArr [])) ps
       | TArray (Some q) =>
-          c <- new_cell (plain (VArr [])) ;;
-          ev_q E rho q v ps (fun x _ =>
-            a <- get_cell c ;;
-            match fst a with
-            | VArr l => set_cell c (plain (VArr (fst x :: l)))
-            | _ => skipM "cell"
-            end) ;;
-          a <- get_cell c ;; free_cell c ;;
-          match fst a with
-          | VArr l => k (plain (VArr (rev' l))) ps
-          | _ => skipM "cell"
-          end
+          with_cell (scoped_ids ps) (plain (VArr []))
+            (fun c => ev_q E rho q v ps (fun x _ =>
+               a <- get_cell c ;;
+               match fst a with
+               | VArr l => set_cell c (plain (VArr (fst x :: l)))
+               | _ => skipM "cell"
+               end))
+            (fun a => match fst a with
+                      | VArr l => k (plain (VArr (rev' l))) ps
+                      | _ => skipM "cell"
+                      end)
       | TUnary op t' =>
           match term_index_key t with
           | Some c => k (plain c) ps
@@ -928,12 +948,12 @@ Definition step_eval_t (E : evals) (rho : env) (t : term) (v : tv) (ps : pst) (k
                end)
       | TReduce src pat start upd =>
           ev_q E rho start v ps (fun s0 ps0 =>
-            c <- new_cell s0 ;;
-            ev_q E rho src v ps0 (fun item ps1 =>
-              ev_bindpat E rho pat item ps1 (fun rho' ps2 =>
-                cur <- get_cell c ;;
-                ev_q E rho' upd cur ps2 (fun u _ => set_cell c u))) ;;
-            res <- get_cell c ;; free_cell c ;; k res ps0)
+            with_cell (scoped_ids ps0) s0
+              (fun c => ev_q E rho src v ps0 (fun item ps1 =>
+                 ev_bindpat E rho pat item ps1 (fun rho' ps2 =>
+                   cur <- get_cell c ;;
+                   ev_q E rho' upd cur ps2 (fun u _ => set_cell c u))))
+              (fun res => k res ps0))
       | TForeach src pat start upd ext =>
           ev_q E rho start v ps (fun s0 ps0 =>
             c <- new_cell s0 ;;
